@@ -5,20 +5,29 @@ P = dict(
     memcheck_stride=dict(quick=20, thorough=20),
     post='reports',
     level='exploration',
-    technique='runtime monitoring: generated runs executed by the real registry/runner (unfiltered, filtered, and with every test in a real forked child), byte stream captured at printBuffer / the PlatformSpecificFPuts seam, decoded offline by an independent TeamCity tokenizer and pairing automaton and compared with the ground truth; ASan/UBSan build',
-    rule='case = one generated run (1..5 groups x 1..6 tests, pass / 1-2 failures / ignored; failures inside the test, in a helper above it, or in another file; names, paths and messages over printable ASCII weighted to \' | [ ] and line breaks plus escape look-alikes such as |n, \'] and "\' x=\'"; '
+    technique='runtime monitoring: generated runs executed by the real registry/runner (unfiltered, filtered, with every test in a real forked child, with and without the run-ignored option, in one or two passes over the same shells), byte stream captured at printBuffer / the PlatformSpecificFPuts seam, decoded offline by an independent TeamCity tokenizer and pairing automaton and compared with the ground truth; ASan/UBSan build',
+    rule='case = one generated run (1..5 groups x 1..6 tests, 8 % of the runs the boundary of one group with one test, pass / 1-2 failures / ignored; failures inside the test, in a helper above it, or in another file; names, paths and messages over printable ASCII weighted to \' | [ ] and line breaks plus escape look-alikes such as |n, \'] and "\' x=\'"; '
          'the empty string is a boundary value of group names (6 %, at most one per run), test names (4 %) and failure texts), '
-         '65% through TestRegistry::runAllTests with a capturing TeamCityTestOutput, 35% through CommandLineTestRunner -oteamcity [-v] [-r2]. '
+         '65% through TestRegistry::runAllTests with a capturing TeamCityTestOutput (25 % of these, 60 % of the single-test runs: two or three passes over the same registry and output object; in 40 % of the unfiltered multi-pass runs, 70 % of the single-test ones, UtestShell::setTestName renames 70 % of the shells between two passes: every pass must be reported under the names the tests have during that pass, also when the same shell is the last one started in a pass and the first one started in the next; keyed teamcity:sequence-differs:name-decoding:test-renamed-since-the-previous-pass), 35% through CommandLineTestRunner -oteamcity [-v] [-r2] [-ri]. '
+         'Every IGNORE_TEST (22 % of the tests) has a scripted body; 22 % of the runs use the run-ignored option (TestRegistry::setRunIgnored before the first or between two passes, or -ri), 10 % of the direct runs without it call setRunIgnored() on individual shells: '
+         'per pass an IGNORE_TEST is either skipped (testIgnored required, no testFailed) or executed (no testIgnored, one testFailed per failure of its body); a testIgnored for an executed IGNORE_TEST is keyed teamcity:sequence-differs:ignored-marker:ignore-test-executed-under-run-ignored. '
          '25 % of the runs carry one or two group/name filters of every kind (substring/strict, selecting/excluding): judged for balance, for the selected tests\' events and for "each test sits in a suite of its own group". '
          '8 % of the runs (3 % in the thorough tier) execute every test in a forked child (registry flag or -p; children pass, fail checks, _exit(n) or are killed by a signal): the parent\'s stream must carry one testFailed, named after the open test, for each test whose child failed. '
          'Non-trivial = run with a TeamCity special character in some name/path/message AND a failure outside the test file; distinct by the (group, test, outcome) sequence',
     floor=dict(quick=500, thorough=10000),
     counter_floor=dict(quick=dict(teamcity_messages_decoded=20000, teamcity_failures_checked=2000, runs_filtered=400, teamcity_runs_with_an_empty_group_name=150, tests_with_empty_name=400,
-                                  runs_in_separate_processes=80, teamcity_parent_side_failures_checked=400, children_killed_by_signal=80, children_exit_nonzero=60),
+                                  runs_in_separate_processes=80, teamcity_parent_side_failures_checked=400, children_killed_by_signal=80, children_exit_nonzero=60,
+                                  runs_with_run_ignored=400, runs_with_run_ignored_switched_on_between_two_passes=20, runs_with_setRunIgnored_on_single_shells=80, teamcity_ignore_tests_skipped_expected=3000, teamcity_ignore_tests_executed_expected=800,
+                                  ignore_test_passes_executed_first_time_in_first_pass=700, ignore_test_passes_executed_first_time_in_a_later_pass=50, ignore_test_passes_executed_again=100,
+                                  runs_with_a_single_test=150, runs_with_tests_renamed_between_passes=100, tests_renamed_and_started_next_after_their_own_previous_start=15, teamcity_renamed_tests_expected=800),
                        thorough=dict(teamcity_messages_decoded=400000, runs_filtered=8000, teamcity_runs_with_an_empty_group_name=3000, tests_with_empty_name=8000,
-                                     runs_in_separate_processes=1000, teamcity_parent_side_failures_checked=5000, children_killed_by_signal=1000, children_exit_nonzero=800)),
+                                     runs_in_separate_processes=1000, teamcity_parent_side_failures_checked=5000, children_killed_by_signal=1000, children_exit_nonzero=800,
+                                     runs_with_run_ignored=8000, runs_with_run_ignored_switched_on_between_two_passes=400, runs_with_setRunIgnored_on_single_shells=1500, teamcity_ignore_tests_skipped_expected=60000, teamcity_ignore_tests_executed_expected=16000,
+                                     ignore_test_passes_executed_first_time_in_first_pass=14000, ignore_test_passes_executed_first_time_in_a_later_pass=1000, ignore_test_passes_executed_again=2000,
+                                     runs_with_a_single_test=4000, runs_with_tests_renamed_between_passes=2000, tests_renamed_and_started_next_after_their_own_previous_start=300, teamcity_renamed_tests_expected=16000)),
     assumptions=['printable ASCII plus CR/LF only; generated text never contains "#"', 'free console text between service messages is ignored',
                  'a suite named \'\' that gets no testSuiteFinished is reported under the key teamcity:suite-not-finished:empty-group-name (the output object used the empty group name as its "no group open" marker) and the missing finish is supplied, so that the rest of the run is judged for everything else',
                  'filtered runs: whether a wholly filtered-out group emits an empty suite is not judged',
+                 'an IGNORE_TEST executed because of the run-ignored option (or setRunIgnored() on its shell) is no ignored test of that pass: no testIgnored, its failures reported; the option stays in force for later passes over the same registry',
                  'separate-process runs: only the parent\'s stream is judged (the child writes to its own copy of the output object); wording and location of the parent-side failure are not judged (C11), its name and position are'],
 )
